@@ -21,6 +21,7 @@ CONSTANTS
   WakeSkipsAcceptAll = FALSE
   PauseKeepsRegistered = FALSE
   RejoinPausedNoAvail = FALSE
+  ResetSeparate = FALSE
 SPECIFICATION Spec
 VIEW View
 PROPERTIES Steps
